@@ -19,6 +19,7 @@ const (
 	vKindDevField          // record with a developer field
 	vKindCompressed        // compressed-timestamp header record
 	vKindLap               // lap message
+	vKindActivity          // activity message with timestamp and local_timestamp
 	vNumKinds
 )
 
@@ -28,6 +29,7 @@ type vStreamInfo struct {
 	kinds      []int
 	nRecords   int // record messages expected in the container
 	nLaps      int
+	nActivities int
 	unkMsgNum  MesgNum
 	unkFldNum  byte
 	nUnkMsg    int
@@ -62,6 +64,8 @@ func vGenStream(kinds []int, hdrCRC bool) *vStreamInfo {
 	body.Write([]byte{0x64, 0, 0, 20, 0, 1, 3, 1, 0x02, 1, 0, 2, 0})
 	// local 5: lap: timestamp, total_elapsed_time(7,uint32)
 	body.Write([]byte{0x45, 0, 0, 19, 0, 2, 253, 4, 0x86, 7, 4, 0x86})
+	// local 6: activity: timestamp, local_timestamp(5,uint32)
+	body.Write([]byte{0x46, 0, 0, 34, 0, 2, 253, 4, 0x86, 5, 4, 0x86})
 	for _, k := range kinds {
 		switch k {
 		case vKindRecord:
@@ -84,6 +88,9 @@ func vGenStream(kinds []int, hdrCRC bool) *vStreamInfo {
 		case vKindLap:
 			body.Write([]byte{0x05, vByte(), vByte(), vByte(), 0x20, vByte(), vByte(), vByte(), vByte()})
 			s.nLaps++
+		case vKindActivity:
+			body.Write([]byte{0x06, vByte(), vByte(), vByte(), 0x20, vByte(), vByte(), vByte(), 0x20})
+			s.nActivities++
 		}
 		s.ends = append(s.ends, s.hdr+body.Len())
 		s.kinds = append(s.kinds, k)
